@@ -100,7 +100,7 @@ func c13model(c *Ctx) {
 	}
 	tolNote := ""      // a deviation compared with something other than the tolerance
 	var constAns *bool // set: every distance question gets this answer (the multi-geometry facet)
-	spanFar := false // set: a deviation is beyond the tolerance exactly when the replacing segment skips two vertices or more
+	spanFar := false   // set: a deviation is beyond the tolerance exactly when the replacing segment skips two vertices or more
 	ask := func(key string) bool {
 		if spanFar {
 			var k, a, b int
